@@ -179,7 +179,7 @@ func (o *Overlay) TransmitMsg(onetMsg *ProtocolMsg, io MessageProxy) error {
 		if err != nil {
 			return xerrors.New("No TreeNode defined in this tree here")
 		}
-		tni := o.newTreeNodeInstanceFromToken(tn, onetMsg.To, io)
+		tni := o.newTreeNodeInstanceFromToken(tn, onetMsg.To, io, tree)
 		// retrieve the possible generic config for this message
 		config := o.getConfig(onetMsg.To.ID())
 		if config == nil {
@@ -774,7 +774,7 @@ func (o *Overlay) NewTreeNodeInstanceFromProtocol(t *Tree, tn *TreeNode, protoID
 		ProtoID:    protoID,
 		RoundID:    RoundID(uuid.Must(uuid.NewRandom())),
 	}
-	tni := o.newTreeNodeInstanceFromToken(tn, tok, io)
+	tni := o.newTreeNodeInstanceFromToken(tn, tok, io, nil)
 	o.RegisterTree(t)
 	return tni
 }
@@ -790,7 +790,7 @@ func (o *Overlay) NewTreeNodeInstanceFromService(t *Tree, tn *TreeNode, protoID 
 		ServiceID:  servID,
 		RoundID:    RoundID(uuid.Must(uuid.NewRandom())),
 	}
-	tni := o.newTreeNodeInstanceFromToken(tn, tok, io)
+	tni := o.newTreeNodeInstanceFromToken(tn, tok, io, nil)
 	o.RegisterTree(t)
 	return tni
 }
@@ -803,7 +803,11 @@ func (o *Overlay) ServerIdentity() *network.ServerIdentity {
 // newTreeNodeInstanceFromToken is to be called by the Overlay when it receives
 // a message it does not have a treenodeinstance registered yet. The protocol is
 // already running so we should *not* generate a new RoundID.
-func (o *Overlay) newTreeNodeInstanceFromToken(tn *TreeNode, tok *Token, io MessageProxy) *TreeNodeInstance {
+// If tree is not nil, it is the tree the caller looked up for this instance:
+// the last other instance using it may have finished since the lookup and have
+// scheduled its removal, so it is stored again (which cancels the removal) in
+// the critical section that registers the instance.
+func (o *Overlay) newTreeNodeInstanceFromToken(tn *TreeNode, tok *Token, io MessageProxy, tree *Tree) *TreeNodeInstance {
 	tni := newTreeNodeInstance(o, tok, tn, io)
 	o.instancesLock.Lock()
 	defer o.instancesLock.Unlock()
@@ -815,6 +819,9 @@ func (o *Overlay) newTreeNodeInstanceFromToken(tn *TreeNode, tok *Token, io Mess
 		return tni
 	}
 	o.instances[tok.ID()] = tni
+	if tree != nil {
+		o.treeStorage.Set(tree)
+	}
 	return tni
 }
 
